@@ -100,6 +100,11 @@ CHECKS = {
         technique='runtime differential monitor across execution strategies: the same generated pipeline (exact integer aggregators) runs single-threaded fused (reference, also against an independent plain-Python evaluation), with num_threads 1-4 under the deterministic scheduler (shard fan-out and shared thread-safe iterator, 26 explored schedules per configuration) and on native threads, as fused vs chained named stages, over make(shard=i/k) for all shards with merged states, and through the in-process interleaved stage runner; batch multisets and aggregates must agree',
         text='40k strategy runs per quick run (10k explored schedules), 940k thorough.',
         note='Element-wise operators, pre-batched records, no re-batching, no sinks.'),
+    'C10': dict(
+        category='exploration', design_ref='DESIGN.md §4 C10',
+        technique='runtime metamorphic monitor with enumerated crash points: data sources (plain, sharded, nested-sharded, merged, round-robin iterables) and pipelines over them (exact aggregators, sliced aggregates, chained aggregating stages, ignore_error sources, num_threads 0-3) are interrupted at every cut position for up to three successive checkpoints, restored through both APIs and every receiver, with the state passed as is / deep-copied / pickled; delivered-before + delivered-after and the final aggregate must equal the uninterrupted run',
+        text='283k cases per quick run (exhaustive for n<=10, all cut lists of 1-3 checkpoints), 3.1M thorough.',
+        note='Threaded cases compare multisets under a watchdog. Three known findings recorded.'),
 }
 
 NOT_APPLICABLE = {}
